@@ -10,6 +10,7 @@ import (
 
 	goat "github.com/avos-io/goat"
 	"google.golang.org/grpc/codes"
+	"google.golang.org/grpc/metadata"
 	"google.golang.org/grpc/status"
 	"pgregory.net/rapid"
 	"verifharness/kit"
@@ -717,3 +718,97 @@ func execC03ParkedSend(t *testing.T, c C03ParkedSend) (v Verdict) {
 func TestC03ParkedSend(t *testing.T) {
 	checkProp(t, "C03", "parked-send", genC03ParkedSend, execC03ParkedSend)
 }
+
+// ---- C03 late: the handler reports its outcome after its own deadline has passed ------------------------------
+
+// C03Late: the request carries a grpc-timeout of 30 ms as plain outgoing metadata, so the handler's context has a
+// deadline although the caller's has none (a proxy or another implementation may add the header just as well). The handler
+// waits for its context to end and then returns Ret - success or any of the failure kinds, with its own status. The
+// caller is still there: it must observe exactly that outcome, not the context's.
+type C03Late struct {
+	Kind  int         `json:"kind"`
+	Ret   kit.ErrSpec `json:"ret"`
+	Ser   bool        `json:"ser"`
+	Stats bool        `json:"stats,omitempty"`
+	Via   string      `json:"via,omitempty"` // "" direct | proxy | demux
+}
+
+func genC03Late(t *rapid.T) C03Late {
+	return C03Late{Kind: rapid.SampledFrom(allKinds).Draw(t, "kind"), Ret: kit.GenErrSpec(t, 25), Ser: rapid.Bool().Draw(t, "ser"), Stats: rapid.IntRange(0, 3).Draw(t, "stats") == 0, Via: rapid.SampledFrom([]string{"", "", "proxy", "demux"}).Draw(t, "via")}
+}
+
+func execC03Late(t *testing.T, c C03Late) (v Verdict) {
+	var uErr error
+	var uDone bool
+	clog := &kit.CLog{}
+	handlerHadDeadline := false
+	res := kit.Bubble(t, func() {
+		svc := kit.NewSvc()
+		svc.Unary("u", func(ctx context.Context, req []byte) ([]byte, error) {
+			_, handlerHadDeadline = ctx.Deadline()
+			<-ctx.Done()
+			if err := c.Ret.Build(); err != nil {
+				return nil, err
+			}
+			return req, nil
+		})
+		svc.Stream("s", c.Kind != kit.KindServer, c.Kind != kit.KindClient, func(s grpcServerStream) error {
+			_, handlerHadDeadline = s.Context().Deadline()
+			if c.Kind == kit.KindServer {
+				if _, err := kit.RecvBytes(s); err != nil {
+					return err
+				}
+			}
+			<-s.Context().Done()
+			return c.Ret.Build()
+		})
+		topo := "direct"
+		if c.Via != "" {
+			topo = c.Via
+		}
+		w := kit.NewWorld(kit.Topo{Kind: topo, Serialize: c.Ser, Clients: 1, Stats: c.Stats}, svc, nil, nil)
+		ctx, cancel := context.WithCancel(metadata.AppendToOutgoingContext(context.Background(), "grpc-timeout", "30m"))
+		defer cancel()
+		done := make(chan struct{})
+		go func() {
+			defer close(done)
+			if c.Kind == kit.KindUnary {
+				_, uErr = kit.Invoke(ctx, w.Conn(0), "u", []byte("x"))
+				uDone = true
+				return
+			}
+			cs, err := w.Conn(0).NewStream(ctx, kit.StreamDescFor(c.Kind), kit.FullMethod("s"))
+			if err != nil {
+				return
+			}
+			kit.RunClientOps([]kit.COp{{Op: "send", P: &kit.Payload{Class: "lit", Lit: []byte("x")}}, {Op: "close"}, {Op: "recvall"}}, cs, cancel, clog)
+		}()
+		kit.Settle()
+		time.Sleep(50 * time.Millisecond) // the handler's deadline passes
+		kit.Settle()
+		<-done
+		w.Shutdown()
+		kit.Settle()
+	})
+	if res.Panic != nil {
+		v.failf("panic: %v\n%s", res.Panic, res.Stack)
+	}
+	if !handlerHadDeadline {
+		v.failf("harness: the handler's context had no deadline")
+	}
+	if c.Kind == kit.KindUnary {
+		if !uDone {
+			v.failf("unary call never returned")
+		} else if msg := oracleStatus("u", c.Ret, kit.Observe(uErr), false); msg != "" {
+			v.failf("%s (the handler returned after its own 30 ms deadline had passed; the caller has no deadline)", msg)
+		}
+	} else if s := clog.Snapshot(); s.RecvEnd == nil {
+		v.failf("caller never observed the end of the stream")
+	} else if msg := oracleStatus("s", c.Ret, *s.RecvEnd, true); msg != "" {
+		v.failf("%s (the handler returned after its own 30 ms deadline had passed; the caller has no deadline)", msg)
+	}
+	v.Info = kit.CaseInfo{Labels: []string{"late-outcome", "late.kind=" + kit.KindNames[c.Kind], "late.ret=" + c.Ret.Kind}, NonTrivial: c.Ret.Build() != nil, Key: fmt.Sprintf("%+v", c), Sample: c}
+	return
+}
+
+func TestC03Late(t *testing.T) { checkProp(t, "C03", "late", genC03Late, execC03Late) }
